@@ -154,6 +154,7 @@ def _ti_lt(ctx: Ctx, c: Collector) -> None:
     # stops adding first arrives earlier or at the same time), so the answer is `self.cutoff < other.cutoff`
     TEQ = T.canon_cmp("==", ("attr", me, "tiers"), ("attr", other, "tiers"))
     first_loop_idx = in_loop[0].idx
+    shortcuts = []
     for r in [r for r in s.returns if not r.iters and r.idx < first_loop_idx]:
         own_g = [T.guard_term(g) for g in r.guards if T.contains((g,), ("attr", me, "tiers")) or T.contains((g,), ("attr", other, "tiers"))]
         if own_g and all(T.canon_cmp(*x[1:]) == TEQ if (x[0] == "cmp" and x[1] in ("==", "!=")) else False for x in own_g) and all(x[1] == "==" for x in own_g):
@@ -167,12 +168,14 @@ def _ti_lt(ctx: Ctx, c: Collector) -> None:
                 want = asg[C_LT]
                 if got is None or got != want:
                     bad_sc.append(f"{label}: answers {got if got is not None else T.show(r.term)[:30]} instead of {want}")
+            if not bad_sc:
+                shortcuts.append(r)         # a correct shortcut: the scan below is judged for the other inputs
             if bad_sc:
                 c.bad("ti-lt", qn, "lexicographic scan", "a shortcut for identical tiers bypasses the tie-break by the cutoffs (" + "; ".join(bad_sc) + "): two delays with equal tiers and "
                       "different cutoffs are then neither <, nor ==, so min / update_min depend on the order of their arguments", ctx.loc(fi, r))
                 return
     # guards outside the loop (length assertions) are not part of the per-tier decision
-    tail = [r for r in s.returns if not r.iters]
+    tail = [r for r in s.returns if not r.iters and r not in shortcuts]
     pre = list(in_loop[0].guards)
     for r in list(tail) + in_loop:
         pre = [g for g in pre if g in r.guards]
